@@ -191,6 +191,11 @@ def _judge_rank(r, m, ld, cg, res) -> bool:  # noqa: ANN001
             res.bad("device-parent", f"rank {r}: device activity {i} ({kept[i].cat}/{kept[i].name}) has parent {parent[i]}, its linked host call is {link[i]}")
         if got[i][3] != 0:
             res.bad("device-height", f"rank {r}: device activity {i} has height {got[i][3]}, expected 0")
+        # "a node's depth is its parent's depth plus one" holds for device nodes too - also after the launching thread's stack
+        # was attached beneath another thread's annotation (seed C13-Q: the depth pass skipped device nodes)
+        if parent[i] in got and int(got[i][2]) != int(got[parent[i]][2]) + 1:
+            res.bad("device-depth", f"rank {r}: device activity {i} ({kept[i].cat}/{kept[i].name}) has depth {got[i][2]}, its parent {parent[i]} "
+                    f"has depth {got[parent[i]][2]}")
     # --- depth / height / kernel aggregates from the reported tree
     memo: Dict[int, tuple] = {}
 
